@@ -298,6 +298,60 @@ def pax_fields_stage(tools, work, rep, ev, tier, cfg):
     return n
 
 
+def tar_num_stage(work, rep, ev, tier, cfg):
+    """spec/TarNum.tla: numeric header fields - w-1 octal digits + blank, w octal digits, base 256 - as written by sqfs2tar's header writer
+    and read by tar2sqfs' reader: exhaustively for every value up to Max at the widths 3 and 4 in the model, and the table of the REAL
+    write_number / write_number_signed / read_number over the same domain (+ the boundaries of the 8 byte fields) validated by TLC."""
+    MAX = 70000 if tier == "quick" else 300000
+    INV = ["RoundTrip", "FieldWidth", "FormByRange", "NegRoundTrip"]
+    C = {"Max": MAX, "BinaryWithoutFlag": False, "FullFormShort": False}
+    write_cfg(cfg, init="Init", nxt="Next", constants=C, invariants=INV, deadlock=False)
+    r = run_tlc("TarNum", cfg, workers=8, timeout=1500)
+    ev.tlc(r, "TarNum Max=%d" % MAX)
+    if not r["ok"]:
+        print("MODEL-FAILURE: TarNum violates %s" % r["violated"])
+        return None
+    for dev in ("BinaryWithoutFlag", "FullFormShort"):
+        write_cfg(cfg, init="Init", nxt="Next", constants=dict(C, **{dev: True}), invariants=INV, deadlock=False)
+        r = run_tlc("TarNum", cfg, workers=4, timeout=600)
+        ev.tlc(r, "dev TarNum " + dev)
+        if r["violated"] != "RoundTrip":
+            print("SELF-CHECK-FAILED: TarNum deviation %s: %s" % (dev, r["violated"]))
+            return None
+    binp = work + "/replay_tarnum"
+    if not build.compile_harness(VERIF + "/harness/replay_tarnum.c", binp, variant="asan",
+                                 extra=['-DWRITE_HEADER_C="%s/lib/tar/src/write_header.c"' % build.REPO, "-I%s/lib/tar/src" % build.REPO]):
+        raise RuntimeError("harness build failed")
+    q = subprocess.run([binp, str(MAX)], capture_output=True, text=True, timeout=600, env=dict(os.environ, ASAN_OPTIONS="detect_leaks=0"))
+    if q.returncode != 0 or "ERROR: AddressSanitizer" in q.stderr:
+        rep.violation("tar-number-memory", "the tar number writer / reader: %s" % q.stderr[-300:])
+        return 0
+    tp = work + "/tarnum.ndjson"
+    lines = [l for l in q.stdout.split("\n") if l.startswith("{")]
+    if any('"guard":false' in l for l in lines):
+        rep.violation("tar-number-memory", "write_number writes beyond its field: %s" % next(l for l in lines if '"guard":false' in l))
+    open(tp, "w").write("\n".join(lines) + "\n")
+    write_cfg(cfg, init="TInit", nxt="TNext", constants=C, invariants=["AllRecordsAgree", "NonEmpty"], deadlock=False)
+    r = run_tlc("TraceTarNum", cfg, workers=1, timeout=1500, env={"TRACE": tp}, heap="8g")
+    ev.tlc(r, "TraceTarNum (%d records)" % len(lines))
+    if r["violated"] == "AllRecordsAgree":
+        bad = sorted(r["trace"][0].get("bad")) if r["trace"] else []
+        first = json.loads(lines[bad[0] - 1]) if bad else None
+        back_wrong = first and (first["rc"] != 0 or first["back"] != first["v"])
+        # a number that does not read back is C04 (the conversion changes an attribute); another byte layout alone is drift
+        if back_wrong:
+            rep.violation("tar-number-roundtrip", "a %d byte header field holding %s%d is written as %s and read back as %s (rc %d)"
+                          % (first["w"], "-" if first["neg"] else "", first["v"], first["bytes"], first["back"], first["rc"]), artefact=tp, data={"first": first})
+        else:
+            print("SPEC-DRIFT (no alarm): %d header fields are laid out differently from TarNum.tla but read back, e.g. %s" % (len(bad), first))
+            ev.set("tar_number_layout_drift", len(bad))
+    elif not r["ok"]:
+        print("CHECK-BROKEN: TraceTarNum failed to run: %s" % r["out"][-600:])
+        return None
+    ev.set("tar_number_records", len(lines))
+    return len(lines)
+
+
 def exclude_stage(tools, work, rep, ev, tier, rng, cfg):
     """spec/TarExclude.tla: archives of <= 3 members x --exclude-dir globs x --root-becomes: exactly the matching members are missing from
     the image, the members behind a skipped file are still read from the right place (contents), directories that are only implied
@@ -787,6 +841,11 @@ def run(tier):
         return 2
     evaluations += n
     nontrivial.update("option-case-%d" % k for k in range(n))
+    tn_ = tar_num_stage(work, rep, ev, tier, cfg)
+    if tn_ is None:
+        ev.write()
+        return 2
+    evaluations += tn_
     xn = exclude_stage(tools, work, rep, ev, tier, rng, cfg)
     if xn is None:
         ev.write()
